@@ -6,6 +6,8 @@ CONSTANTS
   QTpl <- BoundQ
   RRTpl <- BoundRR
   OptTpl <- BoundOpt
+  Chain = FALSE
+  EmitFrom = 0
   MaxOps = 3
 INVARIANTS ParseBack Valid Fits Refusal NamesValid
 CONSTRAINT Emit
